@@ -18,6 +18,7 @@ import (
 	"crypto/sha256"
 	"encoding/hex"
 	"fmt"
+	"math"
 	"math/rand"
 	"os"
 	"os/exec"
@@ -403,6 +404,10 @@ type gen struct {
 	n int
 }
 
+// reals that differ by 1e-3 .. 1e-2, print identically or differently at 2 decimals
+// (types.Float.String() prints %.2f), differ in sign only, and the two zeros
+var nearReals = []float64{0.001, 0.004, 0.0049, 0.005, 0.01, 0.011, -0.001, -0.004, 0, math.Copysign(0, -1), 500.001, 500.004, 1.5, 2.5}
+
 var names = []string{"A", "B", "Font", "Helv", "AB+Helv", "CD+Helv", "+X", "X", "X+", "A+B+C", "C", "B+C"}
 var keys = []string{"A", "B", "Kids", "Parent", "Subtype", "W"}
 
@@ -419,7 +424,7 @@ func (g *gen) atom() types.Object {
 	case 4:
 		return types.HexLiteral([]string{"00", "01"}[g.r.Intn(2)])
 	case 5:
-		return types.Float([]float64{1.5, 2.5, 0}[g.r.Intn(3)])
+		return types.Float(nearReals[g.r.Intn(len(nearReals))])
 	}
 	return types.Integer(7)
 }
@@ -558,8 +563,24 @@ func (c *copier) cp(o types.Object) types.Object {
 		return o
 	case types.Float:
 		if mut {
-			c.mutated = "float"
-			return o + 1
+			switch r.Intn(6) {
+			case 0:
+				c.mutated = "float+1"
+				return o + 1
+			case 1:
+				c.mutated = "float-sign"
+				if o == 0 { // 0.0 <-> -0.0: equal for Go and for a reader
+					c.mutated = "float-negzero"
+					return types.Float(math.Copysign(0, -1))
+				}
+				return -o
+			case 2:
+				c.mutated = "float-to-int"
+				return types.Integer(int(o))
+			default:
+				c.mutated = "float-near"
+				return o + types.Float([]float64{0.001, 0.003, 0.0039, 0.004, 0.009, -0.001}[r.Intn(6)])
+			}
 		}
 		return o
 	case types.Name:
@@ -864,6 +885,32 @@ func fixedGraphs(r *vh.Run) {
 			}
 		}
 	}
+	// objects that differ only in one real number
+	gr := graph{}
+	var rids []int
+	addr := func(o types.Object) { gr[len(gr)+1] = o; rids = append(rids, len(gr)) }
+	mat := func(a float64) types.Array {
+		return types.Array{types.Float(a), types.Integer(0), types.Integer(0), types.Float(a), types.Integer(0), types.Integer(0)}
+	}
+	for _, a := range []float64{0.001, 0.004, 0.0049, 0.005, 0.01, -0.001, 0, math.Copysign(0, -1)} {
+		addr(types.Dict{"Type": types.Name("Font"), "Subtype": types.Name("Type3"), "Name": types.Name("T3"), "FontMatrix": mat(a)})
+		addr(types.StreamDict{Dict: types.Dict{"Subtype": types.Name("Form"), "Matrix": mat(a)}, Raw: []byte("q Q")})
+		addr(types.StreamDict{Dict: types.Dict{"Subtype": types.Name("Image"), "Decode": types.Array{types.Float(a), types.Integer(1)}}, Raw: []byte{1, 2, 3, 4}})
+	}
+	for _, w := range []float64{500, 500.001, 500.004, 500.0049, 500.005, 500.01} {
+		addr(types.Dict{"Type": types.Name("Font"), "BaseFont": types.Name("AB+X"), "Widths": types.Array{types.Float(w), types.Integer(600)}})
+	}
+	addr(types.Dict{"Type": types.Name("Font"), "BaseFont": types.Name("AB+X"), "Widths": types.Array{types.Integer(500), types.Integer(600)}})
+	for _, a := range rids {
+		for _, b := range rids {
+			checkPair(r, gr, ref(a), ref(b), nil, "reals-ref")
+			checkPair(r, gr, gr[a], gr[b], nil, "reals-direct")
+			contentDupCase(r, gr, gr[a], gr[b])
+			if a%5 == 0 && b%5 == 0 {
+				unfoldCase(r, gr, ref(a), ref(b), 3)
+			}
+		}
+	}
 	// a cycle that alternates between a direct object and a reference on either side: no pair
 	// is ever recorded (pairs are only recorded when both sides are references)
 	g2 := graph{1: types.Array{types.Array{ref(1)}}, 2: types.Array{ref(1)},
@@ -977,6 +1024,13 @@ func pick(r *rand.Rand, l ...string) string { return l[r.Intn(len(l))] }
 // one font object built from a small parameter space, so that exact duplicates and
 // near-duplicates (one deep entry differs) are frequent
 func addFont(b *pdfb, r *rand.Rand, d *docSpec) int {
+	if r.Intn(4) == 0 { // Type 3 font: duplicates and fonts that differ only in one real
+		m := pick(r, "0.001", "0.001", "0.004", "0.0049", "0.005", "0.01", "-0.001", "0.0010")
+		w := pick(r, "500.001", "500.001", "500.004", "500")
+		d.desc = append(d.desc, "T3:"+m+":"+w)
+		cp := b.stream("", []byte("500 0 0 0 500 500 d1 0 0 500 500 re f"))
+		return b.add(fmt.Sprintf("<< /Type /Font /Subtype /Type3 /Name /T3 /FontBBox [0 0 1000 1000] /FontMatrix [%s 0 0 %s 0 0] /CharProcs << /a %d 0 R >> /Encoding << /Type /Encoding /Differences [97 /a] >> /FirstChar 97 /LastChar 97 /Widths [%s] /Resources << >> >>", m, m, cp, w))
+	}
 	if r.Intn(2) == 0 {
 		enc := pick(r, "WinAnsiEncoding", "MacRomanEncoding")
 		base := pick(r, "Helvetica", "Helvetica", "Courier")
@@ -985,7 +1039,7 @@ func addFont(b *pdfb, r *rand.Rand, d *docSpec) int {
 	}
 	tag := pick(r, "AAAAAA", "AAAAAA", "BBBBBB")
 	file := pick(r, "\x00\x01\x00\x00AAAA", "\x00\x01\x00\x00AAAA", "\x00\x01\x00\x00AAAB")
-	w := pick(r, "500", "500", "501")
+	w := pick(r, "500", "500", "501", "500.001", "500.001", "500.004", "500.005")
 	flags := pick(r, "32", "32", "34")
 	d.desc = append(d.desc, "TT:"+tag+":"+hx(file)+":"+w+":"+flags)
 	ff := b.stream(fmt.Sprintf("/Length1 %d", len(file)), []byte(file))
@@ -1003,7 +1057,7 @@ func addImage(b *pdfb, r *rand.Rand, d *docSpec, allowMask bool) int {
 		dim = fmt.Sprintf("/Width %d 0 R /Height 2", b.add("2"))
 	}
 	data := pick(r, "\x10\x20\x30\x40", "\x10\x20\x30\x40", "\x10\x20\x30\x41")
-	extra := pick(r, "", "", "/Interpolate true", "/Decode [1 0]")
+	extra := pick(r, "", "", "/Interpolate true", "/Decode [1 0]", "/Decode [0.001 1]", "/Decode [0.001 1]", "/Decode [0.004 1]", "/Decode [0.0 1]", "/Decode [-0.0 1]")
 	mask := ""
 	if allowMask && r.Intn(3) == 0 {
 		mask = fmt.Sprintf("/SMask %d 0 R", addImage(b, r, d, false))
@@ -1024,8 +1078,9 @@ func addForm(b *pdfb, r *rand.Rand, d *docSpec) int {
 		piece = "/PieceInfo << /X << /LastModified (D:20200101000000Z) >> >> /LastModified (D:20200101000000Z)"
 	}
 	data := pick(r, "BT /FF 9 Tf (x) Tj ET", "BT /FF 9 Tf (x) Tj ET", "BT /FF 9 Tf (y) Tj ET")
-	d.desc = append(d.desc, "FO:"+bbox+":"+data)
-	return b.stream(fmt.Sprintf("/Type /XObject /Subtype /Form /BBox %s /Resources %s %s", bbox, res, piece), []byte(data))
+	mx := pick(r, "", "", "/Matrix [1 0 0 1 0 0]", "/Matrix [1.001 0 0 1 0 0]", "/Matrix [1.001 0 0 1 0 0]", "/Matrix [1.004 0 0 1 0 0]", "/Matrix [1.0049 0 0 1 0 0]", "/Matrix [1.005 0 0 1 0 0]", "/Matrix [1.001 0 0 -1 0 0]")
+	d.desc = append(d.desc, "FO:"+bbox+":"+data+":"+mx)
+	return b.stream(fmt.Sprintf("/Type /XObject /Subtype /Form /BBox %s %s /Resources %s %s", bbox, mx, res, piece), []byte(data))
 }
 
 func genDoc(r *rand.Rand) ([]byte, *docSpec) {
